@@ -158,6 +158,20 @@ def step_obligations(pid, tier, seed, check, mutating_only=False):
     obs += failed_history_obligations(pid)
     if pid == 'C01':
         obs += leaf_ir_obligations(pid, tier, 'get') + leaf_ir_obligations(pid, tier, 'set')
+        # tree-level lookup of the native families from IR, on catalogue templates (and their stale-separator variants)
+        c5, _ = cat('OO', 'c', 'BTree', 5, 2, 2)
+        tpls = [s_ for s_ in shapes.stratify(c5, 2, 2) if s_[0] != 'E' and shapes.n_ranks(s_) <= (4 if tier == 'quick' else 5)]
+        if tier != 'quick':
+            c6, _ = cat('OO', 'c', 'BTree', 6, 2, 2)
+            tpls += [s_ for s_ in shapes.stratify_large(c6, 2, 2) if s_ not in tpls and shapes.n_ranks(s_) <= 6]
+        tpls += [v for v in (shapes.stale_variant(s_) for s_ in list(tpls)) if v is not None and shapes.n_ranks(v) <= (5 if tier == 'quick' else 7)]
+        for fam in (['II', 'UU', 'LL', 'QQ'] if tier == 'quick' else ['II', 'UU', 'LL', 'QQ', 'IU', 'LQ']):
+            for tp in tpls:
+                for hk in (0, 1):
+                    mm = shapes.n_ranks(tp)
+                    obs.append(dict(id='%s/ir/%s/tree_get/%s/hk%d' % (pid, fam, sid(tp), hk), engine='llsym', mod='h_kernel', fn='tree_native', nk=0,
+                                    args=[('n', 'int')] + [('k%d' % i, 'int') for i in range(mm)],
+                                    params=dict(family=fam, kernel='tree_get', tpl=tp, has_key=hk), timeout=300 if tier == 'quick' else 600))
         bounds['ir_leaf_kernels'] = '_bucket_get on leaves of 0..3 (thorough 0..6) symbolic native keys, II UU LL QQ (thorough + IU UI LQ QL)'
     return {'obligations': obs, 'bounds': bounds}
 
@@ -994,7 +1008,10 @@ PROPS = {
                     'the binary search, leaves the leaf untouched and unpinned, never reads outside the key/value vectors; _bucket_set '
                     '(assign, insert-if-absent, delete; full leaf -> Bucket_grow/realloc, last key -> vectors freed) leaves exactly the '
                     'sorted-map result in the key/value vectors (strictly ascending, nothing lost or invented), returns 1 iff the number of '
-                    'entries changed, KeyError for deleting an absent key, sets the change flag and notifies persistence iff it modified the leaf.',
+                    'entries changed, KeyError for deleting an absent key, sets the change flag and notifies persistence iff it modified the leaf; '
+                    '_BTree_get on fake multi-level trees built from catalogue templates (interior-node binary search BTREE_SEARCH over native '
+                    'separators, incl. separators that are not stored keys, descent, leaf search): a key is found iff a leaf stores it, with its '
+                    'value; every node is unpinned at return.',
         functions=['BTrees._base.Tree/TreeSet/Bucket/Set public methods', '_OOBTree.so: _BTree_set, _BTree_get, BTree_grow, '
                    'BTree_split, BTree_split_root, BTree_deleteNextBucket, _bucket_set, _bucket_get, bucket_split, '
                    'Bucket_grow, set_* / TreeSet_* in-place operators, BTree_clear, update'],
